@@ -24,7 +24,7 @@ REQUIRED = ['mon.mc_programs', 'mon.mc_exceptions_in_body', 'mon.mc_hover_setpoi
             'mon.mc_consecutive_motions_with_same_vertical_velocity', 'mon.mc_statement_level_preemption_runs',
             'mon.mc_flights_ending_below_take_off_level', 'mon.mc_identical_velocity_commanded_again',
             'mon.mc_programs_over_the_real_commander_legacy_firmware', 'mon.mc_legacy_setpoints_with_yaw_rate',
-            'mon.hl_programs_over_the_real_hl_commander', 'mon.mc_second_flights_with_the_same_object']
+            'mon.hl_programs_over_the_real_hl_commander', 'mon.mc_second_flights_with_the_same_object', 'mon.mc_landings_with_a_setpoint_stalled_on_the_link']
 DESC_TIMEOUT = 900
 PERIOD = 0.2
 
@@ -345,18 +345,35 @@ def run_mc(desc, ctx):
                 ob['f2_mark'] = len(cf.log)
                 ob['f2_t0'] = s.now
                 d2, v2 = 0.3 + (it % 5) * 0.17, 0.3 + (it % 3) * 0.2
+                # in some second flights the link stalls (full queue, held send lock) on one hover setpoint while the
+                # helper is landing: that setpoint takes two seconds to go out
+                stall = {'armed': False, 'done': False}
+                ob['f2_stalled'] = it % 8 == 5
+                real_send = cf.commander.send_hover_setpoint
+
+                def slow_send(*a, **k):
+                    if stall['armed'] and not stall['done']:
+                        stall['done'] = True
+                        ds.v_sleep(2.0)
+                    return real_send(*a, **k)
+                if ob['f2_stalled']:
+                    cf.commander.send_hover_setpoint = slow_send
                 try:
                     if form == 'with':
                         with mc:
                             ob['f2_thread'] = mc._thread
                             mc.forward(d2, v2)
+                            stall['armed'] = True
                     else:
                         mc.take_off(h0, tk_v)
                         ob['f2_thread'] = mc._thread
                         mc.forward(d2, v2)
+                        stall['armed'] = True
                         mc.land()
                 except Exception as e:  # noqa
                     ob['f2_error'] = repr(e)[:200]
+                if ob['f2_stalled']:
+                    cf.commander.send_hover_setpoint = real_send
                 ob['f2_t1'] = s.now
                 ob['f2_min_duration'] = h0 / (0.2 if form == 'with' else tk_v) + d2 / v2
                 s.sleep(3.0)
@@ -503,6 +520,8 @@ def run_mc(desc, ctx):
                     break
             if second_flight:
                 ctx.count('mon.mc_second_flights_with_the_same_object')
+                if ob.get('f2_stalled'):
+                    ctx.count('mon.mc_landings_with_a_setpoint_stalled_on_the_link')
                 c2 = [c for c in cf.log[ob.get('f2_mark', len(cf.log)):] if c[1].startswith('cmd.')]
                 h2 = [c for c in c2 if c[1] == 'cmd.send_hover_setpoint']
                 gaps = [b[0] - a[0] for a, b in zip(h2, h2[1:])]
@@ -511,7 +530,7 @@ def run_mc(desc, ctx):
                     prob = ('mc:second-flight-with-the-same-object-raised', {'error': ob['f2_error']})
                 elif [c[1] for c in c2][-2:] != ['cmd.send_stop_setpoint', 'cmd.send_notify_setpoint_stop']:
                     prob = ('mc:second-flight:does-not-end-with-stop-then-notify', {'last_calls': [c[1] for c in c2][-4:]})
-                elif len(h2) < ob['f2_min_duration'] / PERIOD - 1 or (gaps and max(gaps) > PERIOD + 1e-9):
+                elif not ob.get('f2_stalled') and (len(h2) < ob['f2_min_duration'] / PERIOD - 1 or (gaps and max(gaps) > PERIOD + 1e-9)):
                     prob = ('mc:second-flight:hover-setpoints-not-streamed-every-period',
                             {'hover_setpoints': len(h2), 'flight_lasts_at_least_s': ob['f2_min_duration'], 'largest_gap': max(gaps) if gaps else None})
                 elif any(c[0] > ob['f2_t1'] + 1e-9 for c in c2) or ob.get('f2_alive'):
